@@ -15,14 +15,14 @@ def run(ck):
         "inside the interval either outcome is accepted, contents must always be exact",
         "age/expiration are changed on an existing *fixed* session only together with reset_session (the documentation leaves two readings)",
         "a client-side cookie cannot be revoked, so only server-side identifiers are replayed by the adversary; a stolen *current* identifier is legitimate access",
-        "storage 'network' is not driven here (it is the same session_storage interface behind tcp_cache_service)",
+        "storage 'network' is a real tcp_cache_service on loopback with memory storage behind it, reached through sessions::tcp_factory; the stand-alone session_pool(json) is used (not session_pool(service&))",
         "unpredictability of identifiers is judged by provenance (16 bytes read from /dev/urandom during that save, seen through a read() shim) and uniqueness only",
     ]
     ck.finish("exploration",
-              "worlds = location {client, server, both} x storage {memory, files} x expire {fixed, renew, browser} x default age {20,100,1000} x 1..4 browsers with cookie jars honouring Max-Age/Expires under a virtual clock; "
+              "worlds = location {client, server, both} x storage {memory, files, network} x expire {fixed, renew, browser} x default age {20,100,1000} x 1..4 browsers with cookie jars honouring Max-Age/Expires under a virtual clock; "
               "60..300 requests per world, each a random mix of set/erase/clear/expose/hide/age/expiration/on_server/reset_session + save, clock advances drawn around 0, 10 %, 90 %, 100 % and 200 % of the age, browser restarts, "
               "and an adversary presenting revoked, malformed and path-like identifiers and attempting fixation; an executable model predicts what load() must show; a wrapping storage and an open() shim check every key/path "
               "addressed. non-trivial = distinct world configurations",
               "requests", "worlds", min_evals=20000,
               required_nonzero=("loads_with_session", "sessions_ended", "adversary_requests", "ids_issued", "fixation_attempts", "exposed_cookie_checks", "both_saved_on_server", "both_saved_in_cookie",
-                                "requests_in_envelope_gap", "storage_calls", "paths_touched"))
+                                "requests_in_envelope_gap", "storage_calls", "paths_touched", "worlds_storage_network", "worlds_storage_files", "worlds_storage_memory", "worlds_location_client"))
